@@ -538,3 +538,117 @@ func TestVF_C12Roles(t *testing.T) {
 }
 
 var _ = filepath.Join
+
+// ---------------------------------------------------------------------------------
+// (c) hostile entries: the real sender is handed a poisoned source list (sizes, kinds, ids and permissions that do not
+// match the files), so NAME messages and archive entry headers inside the data stream carry boundary values while both
+// ends still run real code. The receiver must end with an error or a correct result - never crash, never hang.
+
+type vfEntryMut struct {
+	Idx   int    `json:"idx"`   // which scanned entry (modulo their number)
+	Field string `json:"field"` // size isdir pathid perm archive
+	Val   int64  `json:"val"`
+}
+
+type vfC12HostileCase struct {
+	Cfg  vfPairCfg    `json:"cfg"`
+	Tree vfTree       `json:"tree"`
+	Muts []vfEntryMut `json:"muts"`
+}
+
+func vfC12HostileRun(cs vfC12HostileCase) string {
+	base, err := os.MkdirTemp("", "vfc12h")
+	if err != nil {
+		return "mkdtemp: " + err.Error()
+	}
+	defer os.RemoveAll(base)
+	src := filepath.Join(base, "src")
+	dest := filepath.Join(base, "dest")
+	os.MkdirAll(src, 0755)
+	os.MkdirAll(dest, 0755)
+	if err := cs.Tree.materialize(src); err != nil {
+		return ""
+	}
+	vfCurCase("TestVF_C12Hostile", cs)
+	r := vfNewPair(cs.Cfg)
+	r.propagate = true
+	r.hostile = func(files []*sourceFile) []*sourceFile {
+		for _, m := range cs.Muts {
+			if len(files) == 0 {
+				break
+			}
+			f := files[((m.Idx%len(files))+len(files))%len(files)]
+			switch m.Field {
+			case "size":
+				f.Size = m.Val
+			case "isdir":
+				f.IsDir = m.Val != 0
+			// path ids are not poisoned here: the sender's own archive grouping indexes by them (local state, not peer input)
+			case "perm":
+				if m.Val < 0 {
+					f.Perm = nil
+				} else {
+					p := uint32(m.Val)
+					f.Perm = &p
+				}
+			}
+		}
+		return files
+	}
+	r.run([]string{filepath.Join(src, cs.Tree.Files[0].Rel[0])}, dest, 40*time.Second)
+	if r.hung {
+		return fmt.Sprintf("hostile entries %+v left the transfer hanging: %s", cs.Muts, r.describe())
+	}
+	for _, e := range []error{r.clientErr, r.serverErr} {
+		if e != nil && strings.Contains(e.Error(), "[TrzszError] panic") {
+			return fmt.Sprintf("hostile entries %+v caused a recovered panic: %v", cs.Muts, e)
+		}
+	}
+	return ""
+}
+
+func vfGenC12Hostile(rt *rapid.T) vfC12HostileCase {
+	var cs vfC12HostileCase
+	vfGenDir(rt, &cs.Tree.Files, []string{"hroot"}, 1, 2, rapid.IntRange(1, 4).Draw(rt, "fan"), false)
+	for i := range cs.Tree.Files {
+		if cs.Tree.Files[i].Size > 3000 {
+			cs.Tree.Files[i].Size = 3000
+		}
+	}
+	cs.Cfg = vfGenPairCfg(rt, 1000)
+	cs.Cfg.Directory = true
+	cs.Cfg.Timeout = 2
+	cs.Cfg.WinServer = false
+	cs.Cfg.TmuxJunk = false
+	cs.Cfg.Progress = rapid.Bool().Draw(rt, "progress")
+	cs.Cfg.Protocol = rapid.SampledFrom([]int{2, 3, 4, 4, 4}).Draw(rt, "proto")
+	n := rapid.IntRange(1, 3).Draw(rt, "nmuts")
+	for i := 0; i < n; i++ {
+		m := vfEntryMut{Idx: rapid.IntRange(0, 12).Draw(rt, "idx"), Field: rapid.SampledFrom([]string{"size", "size", "isdir", "perm"}).Draw(rt, "field")}
+		switch m.Field {
+		case "size":
+			// non-negative only: the sender's own reader slices by this value (local state); negative sizes reach the receiver
+			// through the NAME rewrites of TestVF_C12Roles instead
+			m.Val = rapid.SampledFrom([]int64{0, 1, 2, 511, 100000, 1 << 31, 1 << 40, 1 << 62}).Draw(rt, "sizeval")
+		case "isdir":
+			m.Val = int64(rapid.IntRange(0, 1).Draw(rt, "isdirval"))
+		default:
+			m.Val = rapid.SampledFrom([]int64{-1, 0, 0777, 04777, 0xffffffff}).Draw(rt, "permval")
+		}
+		cs.Muts = append(cs.Muts, m)
+	}
+	return cs
+}
+
+func TestVF_C12Hostile(t *testing.T) {
+	c := vfNewCollector("C12", "TestVF_C12Hostile")
+	vfCheck(t, c, vfGenC12Hostile, func(cs vfC12HostileCase) string {
+		msg := vfC12HostileRun(cs)
+		labels := append(vfPairLabels(cs.Cfg), "hostile_entries")
+		for _, m := range cs.Muts {
+			labels = append(labels, "poisoned_"+m.Field)
+		}
+		c.eval(cs, true, labels...)
+		return msg
+	})
+}
